@@ -962,4 +962,101 @@ theorem calibrate_force_value_error_first (a : CalibArgs ℝ) (h : a.active = tr
   simp [calibSetup, calibValidate, h, hax]
 example : (true = true) := rfl
 
+/-- RECOVERY on the whole estimator (the function the `c11.drive` op runs): if the magnitude
+    spectrum handed to it is the Gaussian `K·exp(−½((f − μ)/σ)²)` on a strictly increasing
+    frequency axis, the peak bin has both neighbours, and `μ` lies inside the search range, then the
+    estimator answers with the frequency `μ` and the amplitude `K·σ·√(2π)·δ` -/
+theorem driving_estimator_gaussian_spectrum (freqs : List ℝ) (K mu sigma g s delta npts tp sw sw2 : ℝ)
+    (m : Nat) (hsort : freqs.Pairwise (· < ·)) (hK : 0 < K) (hs : 0 < sigma)
+    (hlo : g - s ≤ mu) (hhi : mu ≤ g + s)
+    (hpk : peakBin freqs (freqs.map fun f => K * Real.exp (-(1 / 2) * ((f - mu) / sigma) ^ 2)) g s = some m)
+    (hm0 : 0 < m) (hm1 : m + 1 < freqs.length) :
+    ∃ r, estimateDrive freqs (freqs.map fun f => K * Real.exp (-(1 / 2) * ((f - mu) / sigma) ^ 2))
+        g s delta npts tp sw sw2 = .ok r ∧
+      r.freq = mu ∧ r.amp = K * (sigma * Real.sqrt (2 * Real.pi)) * delta := by
+  have h0 : m - 1 < freqs.length := by omega
+  have h1 : m < freqs.length := by omega
+  have hlt := List.pairwise_iff_getElem.mp hsort
+  have d01 : freqs[m - 1] ≠ freqs[m] := (hlt (m - 1) m h0 h1 (by omega)).ne
+  have d12 : freqs[m] ≠ freqs[m + 1] := (hlt m (m + 1) h1 hm1 (by omega)).ne
+  have d02 : freqs[m - 1] ≠ freqs[m + 1] := (hlt (m - 1) (m + 1) h0 hm1 (by omega)).ne
+  obtain ⟨r, hr, hf, ha⟩ := drivePost_gaussian' m freqs[m - 1] freqs[m] freqs[m + 1] K mu sigma g s delta
+    npts tp sw sw2 d01 d12 d02 hK hs hlo hhi
+  refine ⟨r, ?_, hf, ha⟩
+  unfold estimateDrive
+  rw [hpk]
+  simp only [List.getElem?_map, List.getElem?_eq_getElem h0,
+    List.getElem?_eq_getElem h1, List.getElem?_eq_getElem hm1, Option.map_some]
+  rw [if_neg (by omega : ¬ m = 0)]
+  exact hr
+example : ([1, 2, 3] : List ℝ).Pairwise (· < ·) ∧ (0:Nat) < 1 ∧ 1 + 1 < ([1, 2, 3] : List ℝ).length := by
+  refine ⟨by simp [List.pairwise_cons]; norm_num, by decide, by decide⟩
+
+example : peakBin ([1, 2, 3] : List ℝ)
+    (([1, 2, 3] : List ℝ).map fun f => 1 * Real.exp (-(1 / 2) * ((f - 2) / 1) ^ 2)) 2 5 = some 1 := by
+  have hm : searchMask ([1, 2, 3] : List ℝ) 2 5 = [true, true, true] := by
+    simp [searchMask, RealLike.lt]; norm_num
+  have hc : Real.exp (-(1 / 2) * (((2:ℝ) - 2) / 1) ^ 2) = 1 := by norm_num
+  simp only [peakBin, hm, List.map_cons, List.map_nil, firstTrue, maskSelect, Option.map_some, argmax,
+    argmaxGo, RealLike.lt, one_mul, hc]
+  simp
+  norm_num
+
+/-! ## The robust loss (`loss_function="lorentzian"`) and `ScaledModel` -/
+
+/-- the robust loss is non-negative and vanishes exactly on a pointwise fit -/
+theorem robust_loss_zero_iff (psd : ℝ → ℝ) (n : ℝ) (hn : 0 < n) (fs ps : List ℝ)
+    (hp : ∀ x ∈ fs.zip ps, psd x.1 ≠ 0) :
+    0 ≤ lorentzianLoss psd n fs ps ∧
+    (lorentzianLoss psd n fs ps = 0 ↔ ∀ x ∈ fs.zip ps, psd x.1 = x.2) :=
+  ⟨lloss_nonneg' psd n fs ps, lloss_zero_iff' psd n hn fs ps hp⟩
+example : (0:ℝ) < 20 ∧ ∀ x ∈ [(1:ℝ), 2].zip [(3:ℝ), 4], (fun _ : ℝ => (1:ℝ)) x.1 ≠ 0 := by
+  refine ⟨by norm_num, ?_⟩
+  intro x _; simp
+
+/-- RECOVERY under the robust loss: on a noise-free Lorentzian × diode spectrum the generating
+    parameters give loss 0, and they are the only parameters of the ordered box that do -/
+theorem robust_loss_recovery_unique (fs : List ℝ)
+    (n fc D fd al fc' D' fd' al' f1 f2 f3 f4 : ℝ) (hn : 0 < n)
+    (hfc : 0 < fc) (hord : fc < fd) (hD : 0 < D) (hal : 0 ≤ al) (hal1 : al < 1)
+    (hfc' : 0 < fc') (hord' : fc' < fd') (hD' : 0 < D') (hal' : 0 ≤ al')
+    (m1 : f1 ∈ fs) (m2 : f2 ∈ fs) (m3 : f3 ∈ fs) (m4 : f4 ∈ fs)
+    (h12 : f1 ^ 2 ≠ f2 ^ 2) (h13 : f1 ^ 2 ≠ f3 ^ 2) (h14 : f1 ^ 2 ≠ f4 ^ 2) (h23 : f2 ^ 2 ≠ f3 ^ 2)
+    (h24 : f2 ^ 2 ≠ f4 ^ 2) (h34 : f3 ^ 2 ≠ f4 ^ 2) :
+    lorentzianLoss (fun f => lorentzDiodePsd f fc D fd al) n fs
+      (fs.map fun f => lorentzDiodePsd f fc D fd al) = 0 ∧
+    (lorentzianLoss (fun f => lorentzDiodePsd f fc' D' fd' al') n fs
+      (fs.map fun f => lorentzDiodePsd f fc D fd al) = 0 →
+      fc' = fc ∧ D' = D ∧ fd' = fd ∧ al' = al) := by
+  have hfd : 0 < fd := by linarith
+  have hfd' : 0 < fd' := by linarith
+  constructor
+  · rw [lloss_zero_iff' _ n hn]
+    · intro x hx; exact ((zip_map_snd _ fs x hx).2).symm
+    · intro x _; exact (ld_pos _ fc D fd al hfc hD hfd).ne'
+  · intro h0
+    have hpt := (lloss_zero_iff' _ n hn fs _ (by
+      intro x _; exact (ld_pos _ fc' D' fd' al' hfc' hD' hfd').ne')).mp h0
+    have key : ∀ f ∈ fs, lorentzDiodePsd f fc' D' fd' al' = lorentzDiodePsd f fc D fd al := by
+      intro f hf
+      exact hpt _ (mem_zip_map (fun f => lorentzDiodePsd f fc D fd al) fs f hf)
+    exact ld_identifiable' fc D fd al fc' D' fd' al' f1 f2 f3 f4 hfc hord hD hal hal1 hfc' hord' hal'
+      h12 h13 h14 h23 h24 h34 (key f1 m1) (key f2 m2) (key f3 m3) (key f4 m4)
+example : (0:ℝ) < 20 ∧ (0:ℝ) < 1 ∧ (1:ℝ) < 2 ∧ (0:ℝ) ≤ 1 / 2 ∧ (1:ℝ) / 2 < 1 ∧ (0:ℝ) ∈ [(0:ℝ), 1, 2, 3] ∧
+    (0:ℝ) ^ 2 ≠ 1 ^ 2 := by
+  refine ⟨by norm_num, by norm_num, by norm_num, by norm_num, by norm_num, by simp, by norm_num⟩
+
+/-- `ScaledModel`: the optimiser works on parameters divided by the initial guess; its start
+    vector `np.ones(k)` IS the initial guess, and scaling is element-wise -/
+theorem scaled_model_start (scale : List ℝ) :
+    scaleParams (List.replicate scale.length 1) scale = scale ∧
+    ∀ scaled : List ℝ, (scaleParams scaled scale).length = min scaled.length scale.length := by
+  constructor
+  · induction scale with
+    | nil => rfl
+    | cons x t ih =>
+      simp only [List.length_cons, List.replicate_succ, scaleParams, List.zipWith_cons_cons, one_mul]
+      exact congrArg _ ih
+  · intro scaled; simp [scaleParams]
+
 end Verif.C11
